@@ -1,17 +1,19 @@
 (* C15 — Unpack materialises exactly what a well-formed archive says. *)
 From Slug Require Import Base.Str Base.PathAlg Base.PathLemmas FS.FS FS.FSProofs Slug.Unpack Slug.UnpackSafe Slug.UnpackSpec Slug.RoundTrip.
 
-(* An archive that lists a tree of regular files and directories - every directory before its
+(* An archive that lists a tree of regular files, directories and links that stay inside
+   ([links_ok_kids]) - every directory before its
    contents, names as slash-joined plain segments, a trailing slash on directory names, as Pack
    writes them ([kids_entries]) - unpacked into an empty directory materialises exactly that tree:
-   each file with its recorded content, permissions and time, each directory with its recorded
+   each file with its recorded content, permissions and time, each link with its recorded target,
+   each directory with its recorded
    permissions and time applied after its contents ([rounded] keeps what the entries record);
    nothing else in the file system changes.  For every such tree, every allow list, every file
    system and destination. *)
 Theorem C15_tree_archive_materialised :
   forall allow fs0 dst, dst_ok dst -> is_dir fs0 = true -> rdir fs0 (comps_of dst) ->
     forall pmD mtD ks, get fs0 (comps_of dst) = Some (Dir pmD mtD []) ->
-      NoDup (map fst ks) -> wf_kids ks ->
+      NoDup (map fst ks) -> wf_kids ks -> links_ok_kids [] ks ->
       unpack true allow fs0 dst (kids_entries [] ks)
       = (put fs0 (comps_of dst) (Dir pmD (match ks with [] => mtD | _ => None end) (map rp ks)), ROk).
 Proof. exact unpack_tree_entries. Qed.
